@@ -7,6 +7,7 @@ let tol = ref 1e-12
 let nmis = ref 0
 let ncmp = ref 0
 let nnz = ref 0
+let nmasked = ref 0
 let n = nat_of_int
 let mism r fmt = incr nmis; Printf.ksprintf (fun s -> if !nmis < 60 then Printf.printf "MISMATCH %s %s\n" r.id s) fmt
 
@@ -30,6 +31,11 @@ let do_case r =
   let ncart = ncart_impl in
   let maskv = Hashtbl.find r.ints "mask" in
   let mask s1 e = maskv.(int_of_nat s1 * ne + int_of_nat e) <> 0 in
+  for s1 = 0 to ns - 1 do
+    let all_off = ref (ne > 0) in
+    for e = 0 to ne - 1 do if maskv.(s1 * ne + e) <> 0 then all_off := false done;
+    if !all_off then incr nmasked
+  done;
   let b name s1 s2 e = Printf.sprintf "%s_%d_%d_%d" name (int_of_nat s1) (int_of_nat s2) (int_of_nat e) in
   let blk0 s1 s2 e k l = blk_of "b0" (getm r (b "b0" s1 s2 e)) k l in
   let blkc name s1 s2 e i k l = let nm = Printf.sprintf "%s_%d" (b name s1 s2 e) (int_of_nat i) in blk_of nm (getm r nm) k l in
@@ -76,4 +82,4 @@ let () =
       let before = !nmis in
       do_case r;
       if !nmis = before then Printf.printf "ok %s\n" r.id);
-  Printf.printf "SUMMARY cases=%d compared=%d nonzero=%d mismatches=%d\n" !ncase !ncmp !nnz !nmis
+  Printf.printf "SUMMARY cases=%d compared=%d nonzero=%d masked_shells=%d mismatches=%d\n" !ncase !ncmp !nnz !nmasked !nmis
